@@ -122,6 +122,17 @@ def run(ctx):
                                                             "computed (and the given r is reported)", out=sf.tolist(),
                                                reported_r=float(r)))
                 res.hit("explicit_formula_d2s")
+            # an explicit r is used and reported as given also when a cover_quantile is passed along (for the methods with
+            # one parameter the quantile then has nothing left to determine; reciprocal derives its second parameter a)
+            if "r" in kw and "cover_quantile" in kw and method in ("exponential", "gaussian", "reverse"):
+                rr = kw["r"]
+                doc = {"exponential": lambda d: math.exp(-d / rr), "gaussian": lambda d: math.exp(-d * d / (rr * rr)),
+                       "reverse": lambda d: (rr - d) / rr}[method]
+                res.hit("explicit_r_with_cover_quantile")
+                if float(r) != float(rr) or any(not close(float(a_), doc(float(d_))) for a_, d_ in zip(sf, flat)):
+                    res.violations.append(dict(info, clause="with an explicit r the documented formula is computed with that r "
+                                                            "(and it is reported), also when cover_quantile is given",
+                                               out=sf.tolist(), reported_r=float(r)))
             # re-application with the reported parameter(s)
             kw2 = {k: v for k, v in kw.items() if k != "cover_quantile"}
             kw2["r"] = r
